@@ -516,6 +516,7 @@ pub fn gen_canonical_stream(rng: &mut Rng, cat: &Cat, fail_fast_cut: bool) -> Ve
 pub fn gen_arbitrary_stream(rng: &mut Rng, cat: &Cat) -> Vec<AEv> {
     let n = rng.range(0, 25);
     let mut v = vec![];
+    let mut hook_failed_of: Vec<Key> = vec![];
     for _ in 0..n {
         let res = |rng: &mut Rng| match rng.below(7) {
             0 => ARes::Started,
@@ -554,12 +555,25 @@ pub fn gen_arbitrary_stream(rng: &mut Rng, cat: &Cat) -> Vec<AEv> {
                 }
             }
         };
+        // Guard of the Summarize model (DESIGN §0.3): a SECOND `Hook::Failed` for a scenario path whose indicator is
+        // still `Skipped` makes `scenarios.skipped -= 1` underflow (a panic with overflow checks, a wrap without) —
+        // build-dependent behaviour that no Runner stream can cause. At most one failed hook per scenario path.
+        if let AEv::Scen(k, _, ASc::Hook(_, AHook::Failed(_))) = &e {
+            if hook_failed_of.contains(k) { continue; }
+            hook_failed_of.push(*k);
+        }
         v.push(e);
     }
     if rng.chance(2, 3) { v.push(AEv::Finished); }
     if rng.chance(1, 4) {
         // events after Finished (what an outer Repeat replays)
-        for _ in 0..rng.below(4) { if v.is_empty() { break; } let i = rng.below(v.len()); let e = v[i].clone(); v.push(e); }
+        for _ in 0..rng.below(4) {
+            if v.is_empty() { break; }
+            let i = rng.below(v.len());
+            let e = v[i].clone();
+            if matches!(e, AEv::Scen(_, _, ASc::Hook(_, AHook::Failed(_)))) { continue; }
+            v.push(e);
+        }
     }
     v
 }
